@@ -1455,16 +1455,23 @@ struct array : static_array<T, D, Alloc> {
 		}
 		this->destroy();
 		this->deallocate();
-		this->layout_mutable() = typename array::layout_t{extensions};
-		this->base_            = this->static_::array_alloc::allocate(
-            static_cast<typename multi::allocator_traits<typename array::allocator_type>::size_type>(
-                typename array::layout_t{extensions}.num_elements()
-            ),
+		this->layout_mutable() = typename array::layout_type(typename array::extensions_type{});  // stays empty if the new storage cannot be completed
+		typename array::layout_t const new_layout{extensions};
+		auto const count    = static_cast<typename multi::allocator_traits<typename array::allocator_type>::size_type>(new_layout.num_elements());
+		auto const new_base = this->static_::array_alloc::allocate(
+            count,
             this->data_elements()  // used as hint
         );
 		if constexpr(!(std::is_trivially_default_constructible_v<typename array::element_type> || multi::force_element_trivial_default_construction<typename array::element_type>)) {
-			adl_alloc_uninitialized_value_construct_n(this->alloc(), this->base_, this->num_elements());
+			try {
+				adl_alloc_uninitialized_value_construct_n(this->alloc(), new_base, new_layout.num_elements());
+			} catch(...) {
+				if(count != 0) { multi::allocator_traits<typename array::allocator_type>::deallocate(this->alloc(), new_base, count); }
+				throw;
+			}
 		}
+		this->base_            = new_base;
+		this->layout_mutable() = new_layout;
 		return std::move(*this);
 	}
 
